@@ -197,6 +197,9 @@ func opString(o *op) string {
 		return fmt.Sprintf("NewMnemonicByEntropy(%x, %s)", []byte(o.Entropy), name)
 	case "new":
 		if len(o.Source) > 0 {
+			if o.SourceErr != "" {
+				return fmt.Sprintf("NewMnemonic(%d, %s) [source %x, then %s]", o.N, name, []byte(o.Source), o.SourceErr)
+			}
 			return fmt.Sprintf("NewMnemonic(%d, %s) [source %x]", o.N, name, []byte(o.Source))
 		}
 		return fmt.Sprintf("NewMnemonic(%d, %s)", o.N, name)
@@ -296,6 +299,9 @@ func drawOp(rt *rapid.T, p *opPool, single bool, allowSeed bool) op {
 		if single && rapid.Bool().Draw(rt, "scripted-source") {
 			e := p.entropies[rapid.IntRange(0, len(p.entropies)-1).Draw(rt, "src")]
 			o.Source = append(append([]byte{}, e...), 0x99)
+			if rapid.IntRange(0, 2).Draw(rt, "os-error") == 0 {
+				o.SourceErr = rapid.SampledFrom(append([]string{"EAGAIN", "timeout", "custom"}, osErrKinds...)).Draw(rt, "source-err")
+			}
 		}
 	case "seed":
 		i := rapid.IntRange(0, len(p.texts)-1).Draw(rt, "text")
